@@ -162,8 +162,9 @@ def run_history(case, ctx, on_step=None, compare_fresh=True, check_totals=True, 
             if not fresh_ok:
                 summary["labels"].append("edit_rejected_target_invalid")
                 if on_failed_edit is None:
-                    summary["status"] = "ended_invalid_target"
-                    return summary
+                    # a legitimate refusal: the model must be as it was, and the history goes on from there
+                    summary["refused"] = summary.get("refused", 0) + 1
+                    continue
                 # C15: the failed edit must be recoverable; the hook re-assigns the previous value and checks
                 if on_failed_edit(i, e, cur, live, ex, case_i) is False:
                     summary["status"] = "violation"
